@@ -218,9 +218,11 @@ def impl(case):
             JsonExporter(maxlevel=pj, **jkw).export(top)
         je = JsonExporter(dictexporter=de, maxlevel=jmax, **jkw)
         text = je.export(root)
-        ref_exp = expcls(**kw) if custom else DictExporter()
+        # the reference: the (supplied) dict exporter with the JsonExporter's maxlevel, if it has one, in force
+        rkw = dict(kw) if custom else {}
         if jmax is not None:
-            ref_exp.maxlevel = jmax
+            rkw["maxlevel"] = jmax
+        ref_exp = expcls(**rkw) if custom else DictExporter(**rkw)
         expect = json.dumps(ref_exp.export(root), **jkw)
         fh = io.StringIO()
         je.write(root, fh)
